@@ -15,7 +15,7 @@ RULE = ("random shots (twist 0) with 1-4 wind segments (speeds 0-60 ft/s, opposi
         "until-distances), zero-speed == none, appended zero wind, split segment, causality beyond D, left-right mirror, "
         "signs vs the no-wind twin, and windage at every row against the RK4 reference; a case = (shot, relation); "
         "non-trivial when at least one wind with non-zero speed switches inside the range")
-MUST_OBSERVE = ["shots_with_relabelled_winds", "rel_max_distance_keyword", "relations_checked", "rel_setter", "rel_permutation", "rel_zero_speed", "rel_append_zero", "rel_split", "rel_causality",
+MUST_OBSERVE = ["rel_other_windless_shot_edited", "shots_with_relabelled_winds", "rel_max_distance_keyword", "relations_checked", "rel_setter", "rel_permutation", "rel_zero_speed", "rel_append_zero", "rel_split", "rel_causality",
                 "rel_mirror", "rel_sign_cross", "rel_sign_head_tail", "rel_reference", "reference_rows", "switch_inside_range",
                 "rel_differs_after_switch", "sign_drop_rows_judged"]
 ASSUMPTIONS = ["permutation is only required when all until-distances are distinct (ties have no defined order)",
@@ -125,6 +125,28 @@ def check_case(ctx, case):
     d = first_diff(none_rows, zr)
     if d:
         ctx.violation("zero_speed", f"zero-speed winds differ from no wind: row {d[0]} {d[1]} {d[2]!r} vs {d[3]!r}", c0)
+    if case.get("edit_other_windless_shot"):
+        # another shot that was never given a wind has its calm placeholder edited through the public attributes; shots
+        # without wind - built before or after - must stay without wind
+        ctx.count("relations_checked")
+        ctx.count("rel_other_windless_shot_edited")
+        with monitors.quiet():
+            earlier = build.shot(dict(spec, winds=[]))
+            other = build.shot(dict(spec, winds=[]))
+            for w in other.winds:
+                w.velocity, w.direction_from = pb.Velocity.FPS(45.0), pb.Angular.Degree(90.0)
+            later = build.shot(dict(spec, winds=[]))
+            later.winds = None
+            for name, sh in (("built before", earlier), ("built afterwards", later)):
+                try:
+                    rows = [row_tuple(r) for r in build.calculator().fire(sh, Distance.Foot(r_ft), Distance.Foot(step))]
+                except pb.RangeError as err:
+                    rows = [row_tuple(r) for r in err.incomplete_trajectory]
+                d = first_diff(none_rows, rows)
+                if d:
+                    ctx.violation("zero_speed", f"a shot without wind ({name}) is blown by the wind set on another windless shot's placeholder: "
+                                                f"row {d[0]} {d[1]} {d[2]!r} vs {d[3]!r}", dict(case, relation="other_windless_shot_edited"))
+                    break
     # 3 explicit zero wind after the last segment
     if winds and max(untils) < 1e8:
         rel("append_zero", dict(spec, winds=winds + [[0.0, 77.0, None]]), exact)
@@ -295,6 +317,7 @@ def gen_case(rng):
     if rng.random() < 0.2:
         s["wind_max_factor"] = round(rng.uniform(1.05, 11.5), 3)     # every bounded wind also carries max_distance_feet = until x factor
     return {"shot": s, "range_ft": r_ft, "step_ft": r_ft / rng.choice([6, 12, 20]), "perm": rng.choice(["reverse", "rotate"]),
+            "edit_other_windless_shot": rng.random() < 0.25,
             "split_idx": rng.randint(0, 3), "split_frac": round(rng.uniform(0.1, 0.9), 3), "cause_idx": rng.randint(0, 3),
             "cause_add": rng.random() < 0.7, "cause_speed": round(rng.uniform(5, 60), 2), "cause_dir": round(rng.uniform(0, 360), 1),
             "sign_speed": round(rng.uniform(3, 40), 2), "reference": rng.random() < 0.4}
